@@ -255,10 +255,14 @@ macro_rules! impl_derivatives {
             fn tanh(&self) -> Self {
                 // sech^2 is formed directly: the quotient rule would compute it as
                 // (cosh^2 - sinh^2) / cosh^2, which cancels catastrophically for large |x|.
-                let rec = self.re.cosh().recip();
+                // It is built from the decaying exponential e^(-2|x|) only, because cosh (and,
+                // if the real part is itself a dual number, the square of its derivative parts)
+                // overflows long before tanh and its derivatives stop being finite.
+                let two = F::one() + F::one();
+                let e = (-(self.re.abs() * two)).exp();
+                let den = e.clone() + F::one();
                 let f0 = self.re.tanh();
-                let f1 = rec.clone() * &rec;
-                second!($deriv, let two = F::one() + F::one(););
+                let f1 = e * two * two / (den.clone() * den);
                 second!($deriv, let f2 = -f0.clone() * &f1 * two;);
                 third!($deriv, let f3 = (f0.clone() * &f0 * two - &f1) * &f1 * two;);
                 chain_rule!($deriv, Self::chain_rule(self, f0, f1, f2, f3))
